@@ -588,3 +588,21 @@ pub fn with_deadline<T: Send + 'static, F: FnOnce() -> T + Send + 'static>(f: F,
     }
     r
 }
+
+static HANGS: Mutex<Vec<String>> = Mutex::new(Vec::new());
+/// replay lines of the scenarios that did not finish within their time limit
+pub fn hangs() -> Vec<String> {
+    HANGS.lock().unwrap().clone()
+}
+/// run one scenario under a watchdog: a scenario that does not finish (some call of the client
+/// never returned, with or without a deadline of its own) is recorded as a hang - the driver goes
+/// on, and the sink reports it as a direct violation
+pub fn watchdog<T: Send + 'static, F: FnOnce() -> Option<T> + Send + 'static>(line: String, secs: u64, f: F) -> Option<T> {
+    match with_deadline(f, Duration::from_secs(secs)) {
+        Some(r) => r,
+        None => {
+            HANGS.lock().unwrap().push(line);
+            None
+        }
+    }
+}
